@@ -74,7 +74,9 @@ def checksJson (cfg : Cfg) (na : Bool) (h : HandlerResult) (neg : Negotiated) (t
       ("c01_prefix", jBool ((dataFirsts tr).isPrefixOf (idealPackets cfg.wrap 0 (idealBlocks na neg.blockSize content)))),
       ("c02", jBool (c02Check neg.timeout cfg.maxRetries tr)),
       ("c07", jBool (c07Check neg tr && tsizeMatches neg tr (completed && faultAt.isNone))),
-      ("c08_no_tsize", jBool (!na || (dictGet neg.oack optTsize).isNone)),
+      -- netascii never announces a size: the negotiated OACK has no tsize (`C08.netascii_no_tsize`) AND every
+      -- OACK on the trace is exactly that negotiated OACK (`c07Check`, evaluated on the trace given)
+      ("c08_no_tsize", jBool (!na || ((dictGet neg.oack optTsize).isNone && c07Check neg tr))),
       ("c09", jBool (c09Check faultAt.isSome tr && invalidAnswered tr)),
       ("c20", jBool (resourcesOK true tr)),
       ("completed", jBool completed)]
@@ -149,12 +151,33 @@ def session : Op := fun j => do
         pure (some names)
       | _ => pure none
     let res ← handlerFromJson (← getField h "result")
-    return (acc, res))
-  let accepts : List Char → List Bool := fun f => hs.map (fun (h : Option (List (List Char)) × HandlerResult) =>
-    match h.1 with
-    | none => true
-    | some names => names.contains f)
+    let rz : Option Ans := match h.getObjVal? "raise_in" with
+      | .ok (Json.str "prepare") => some Ans.raisePrepare
+      | .ok (Json.str "can_handle") => some Ans.raiseCanHandle
+      | _ => none
+    return (acc, res, rz))
+  let answers : List Char → List Ans := fun f => hs.map (fun (h : Option (List (List Char)) × HandlerResult × Option Ans) =>
+    match h.2.2 with
+    | some a => a
+    | none =>
+      match h.1 with
+      | none => Ans.yes
+      | some names => if names.contains f then Ans.yes else Ans.no)
+  let accepts : List Char → List Bool := fun f => (answers f).map Ans.toBool
   let script ← (← getArr j "script").mapM evFromJson
+  match processDatagramF answers data with
+  | .handlerFailed i =>
+    -- a handler raised while being asked: logged, no reply, no transfer
+    let f := (reachesHandlers data).getD []
+    let mut portF : List (String × Json) := [("reqport_model", jBool (requestPortFaultOK [] 0))]
+    match j.getObjVal? "impl_main" with
+    | .ok (Json.arr a) =>
+      let replies ← a.toList.mapM (fun x => do fromHex (← x.getStr?))
+      portF := portF ++ [("reqport_impl", jBool (requestPortFaultOK replies (← getNat j "impl_transfers")))]
+    | _ => pure ()
+    return Json.mkObj ([("request", Json.mkObj [("kind", jStr "handler_failed"), ("handler", jNat i)]),
+      ("calls", jArr ((dispatchCallsF 0 (answers f)).map callToJson))] ++ portF)
+  | .ok _ => pure ()
   let r := processDatagram accepts data
   let mut port : List (String × Json) :=
     [("reqport_model", jBool (requestPortOK2 data (replyOf r) (transfersOf r) false))]
@@ -167,7 +190,7 @@ def session : Op := fun j => do
   | .transfer rrq i =>
     match hs[i]? with
     | none => throw "handler index out of range"
-    | some (_, res) =>
+    | some (_, res, _) =>
       let fields ← transferFields cfg (rrq.mode == .netascii) rrq.options res script j
       return Json.mkObj ([("request", resultToJson r),
         ("calls", jArr ((dispatchCalls 0 (accepts rrq.filename)).map callToJson))] ++ port ++ fields)
